@@ -353,6 +353,12 @@ def execute(scn: dict) -> dict:
                     V("env", entry, f"{entry} passed env {sp['env']!r}, configuration says {s['env']!r}")
             elif not isinstance(sp["env"], dict):
                 V("env", entry + ":not-a-dict", f"env passed to the spawn is {sp['env']!r}")
+            else:
+                # nothing configured: the documented default is the inherited safe subset of the parent environment
+                inherit = ["HOME", "LOGNAME", "PATH", "SHELL", "TERM", "USER"]
+                exp_env = {k_: os.environ[k_] for k_ in inherit if os.environ.get(k_) and not os.environ[k_].startswith("()")}
+                if sp["env"] != exp_env:
+                    V("env", entry + ":default-environment", f"no env configured: spawn got keys {sorted(sp['env'])}, the default inherited set is {sorted(exp_env)}")
             if any((" " in a or not a.isascii() or a == "") for a in s.get("args", [])):
                 probe("args_with_spaces_or_unicode")
             if s.get("fault") == "unstartable":
